@@ -570,9 +570,10 @@ func (r *rewriter) rewriteStmt(st ast.Stmt) []ast.Stmt {
 	return append(pre, r.rewriteStmt1(st)...)
 }
 
-// atomicIsFirstStep: nothing that can be a step of its own (another call, a receive) or that makes the evaluation
-// conditional (&&, ||) is evaluated in head h before the atomic call c: calls that take c's result as an argument,
-// conversions and len/cap aside.
+// atomicIsFirstStep: nothing that can be a step of its own (another call, a receive) is evaluated in head h before
+// the atomic call c: calls that take c's result as an argument, conversions and len/cap aside. (A call that is
+// evaluated conditionally - the right operand of && - is fine: if it is evaluated, it is the first step behind the
+// scheduling point; if not, the point was one yield too many.)
 func (r *rewriter) atomicIsFirstStep(h ast.Node, c *ast.CallExpr) bool {
 	ok := true
 	ast.Inspect(h, func(n ast.Node) bool {
@@ -584,10 +585,6 @@ func (r *rewriter) atomicIsFirstStep(h ast.Node, c *ast.CallExpr) bool {
 			return false
 		case *ast.UnaryExpr:
 			if x.Op == token.ARROW && x.Pos() < c.Pos() {
-				ok = false
-			}
-		case *ast.BinaryExpr:
-			if (x.Op == token.LAND || x.Op == token.LOR) && x.Y.Pos() <= c.Pos() && c.End() <= x.Y.End() {
 				ok = false
 			}
 		case *ast.CallExpr:
